@@ -22,6 +22,7 @@ from .contract import ClassContract  # noqa: F401
 from .interp import NOTSET, Env, Interp, World, explore
 from .loader import Loader, all_functions
 from .refine import SPEC_HELPERS, Result, havoc_cell
+from .values import frozen_copy
 from .values import (
     SV,
     BoolSV,
@@ -190,11 +191,11 @@ class ClassHarness:
         if side == "impl":
             d = {}
             for k, v in self.obj.fields.items():
-                d[k] = SV(v.term, "seq") if isinstance(v, ListObj) and v.symbolic else (ListObj(list(v.items)) if isinstance(v, ListObj) else v)
+                d[k] = SV(v.term, "seq") if isinstance(v, ListObj) and v.symbolic else frozen_copy(v)
             return d
         d = {}
         for k, v in self.s.fields.items():
-            d[k] = SV(v.term, "seq") if isinstance(v, ListObj) and v.symbolic else (ListObj(list(v.items)) if isinstance(v, ListObj) else v)
+            d[k] = SV(v.term, "seq") if isinstance(v, ListObj) and v.symbolic else frozen_copy(v)
         return d
 
     def inv_term(self, it, fields, sfields):
